@@ -39,6 +39,7 @@ type Net struct {
 // NetStats counts what the network did.
 type NetStats struct {
 	Batches, Messages, Dropped, DroppedBlocked, Delayed, Reordered, ConnFailures, Chunks, ChunksFailed int64
+	ExtFileChunks, ExtFileChunksOfWholeChunkFiles                                                      int64
 }
 
 type endpoint struct {
